@@ -3,6 +3,7 @@
 From Coq Require Import List Arith Bool.
 Import ListNotations.
 Require Import Pyrefact.SchedModel Pyrefact.SchedProofs Pyrefact.DriverModel Pyrefact.DriverProofs.
+Require Import Pyrefact.RemoveNodesModel Pyrefact.RemoveNodesProofs.
 Require Import PyrefactGen.Tables.
 
 (* T03.1 every @processing.fix rule, chain, sub and subn maps valid text to valid text, whatever
@@ -42,6 +43,20 @@ Theorem T03_1_replace_nodes_preserves_validity :
     valid s = true -> valid (guarded_once St valid cand s) = true.
 Proof. exact guarded_once_valid. Qed.
 Print Assumptions T03_1_replace_nodes_preserves_validity.
+
+(* T03.4 processing.remove_nodes (empty-body detection inserting 'pass'): for every text, keep mask
+   and set of pass positions that are ascending and >= 2 apart, inside the text and on removed
+   characters (structural facts of the first half of remove_nodes, re-checked on every
+   correspondence case), the character loop emits every kept character, in order, and exactly one
+   "pass\n" at the first-child position of every emptied body.  (Holds since the repair F03-2;
+   before it the two characters after a pass position were dropped.) *)
+Theorem T03_4_remove_nodes_exact :
+  forall (A : Type) (PASS : list A) (src : list A) (keep : list bool) (ps : list nat),
+    length keep = length src -> gaps_ok ps = true -> in_range (length src) ps = true ->
+    on_removed keep ps = true ->
+    remove_nodes_model A PASS src keep ps = rn_ideal A PASS (in_list ps) 0 src keep.
+Proof. exact remove_nodes_exact. Qed.
+Print Assumptions T03_4_remove_nodes_exact.
 
 (* T03.2 write guard of format_file: the complete decision table ... *)
 Theorem T03_2_format_file_decision_table :
